@@ -4,6 +4,7 @@ import Rangers.Generated.Bn256Consts
 import Rangers.Model.Shamir
 import Rangers.Model.G1
 import Rangers.Model.G2
+import Rangers.Model.IdKey
 /-!
 Line-protocol driver for C13. Scalars/ids are minimal big-endian hex (`-` = 0), points are
 the 64-byte `Marshal` form, a nil signature (`Signature{}` with nil point) is `-`.
@@ -18,6 +19,8 @@ the 64-byte `Marshal` form, a nil signature (`Signature{}` with nil point) is `-
   recover <k> <js|-> <id> <sig> …        → ok <sig|-> | PANIC
   gen|lgen <k> <js|-> <id> <sig> …         → <add><gen>,… <groupSign|-> | PANIC   (GroupSignGenerator.AddWitnessSign per arrival)
   hashg1 <msg> <refH(m)>                 → <refH(m)>   (Go: the code's H(m); reference = crypto/sha256 + math/big in the harness)
+  idkey <id> | idparse <string bytes>    → <0x…hex> ok <value> | ok <value> | arg-failed | unmodelled
+  membercount <min> <max> <ratio> <avail> → <CreateGroupMemberCount> <IsGroupMemberCountLegal of it> | PANIC
   deliver <n> <id> <share> <pub> …      → <status,…> <signKey> <groupPubKey|nil>   (groupNodeInfo.handleSharePiece per delivery)
   g2add <P> <Q> | g2mul <P> <k>          → <G2 marshal> (`00` = infinity)
   aggpk <g2base> <k1> …                  → ok <AggregatePubkeys of kᵢ·g₂> | nil
@@ -50,18 +53,11 @@ def decs? (s : String) : Option (List Nat) :=
 def hexNat (n : Nat) : String := toHex (natToBE n)
 def joinWith (sep : String) (l : List String) : String := sep.intercalate l
 
-/-- What `DeserializeSign`/`G1.Unmarshal` leave in the receiver: `none` = nil point. -/
-def sigOfBytes (b : Bytes) : Option G1.Point :=
-  match G1.unmarshal curve b with
-  | .ok p => some p
-  | .malformed p => some p
-  | .short => none
+def sigOfBytes (b : Bytes) : Option G1.Point := G1.deserializeSign curve b
 
 def sig? (s : String) : Option (Option G1.Point) := (ofHex? s).map sigOfBytes
 
-def showSig : Option G1.Point → String
-  | none => "-"
-  | some p => toHex (G1.marshal p)
+def showSig (s : Option G1.Point) : String := toHex (G1.serializeSign s)
 
 def showRes : Shamir.Res (Option G1.Point) → String
   | .panic => "PANIC"
@@ -160,6 +156,35 @@ def step (_ : Unit) (line : String) : Unit × String :=
       | some _, some (some p) =>
         if G1.isOnCurve curve p && p != .inf then toHex (G1.marshal p) else "bad-op"
       | _, _ => "bad-op"
+    | ["idkey", x] =>
+      -- idkey <id>: ID.GetHexString, and the value ID.SetHexString reads back from it
+      match nat? x with
+      | some x' =>
+        match IdKey.idHexChars x' with
+        | none => "PANIC"
+        | some cs =>
+          String.ofList cs ++ " " ++ (match IdKey.idSetHex cs with
+            | .ok v => "ok " ++ hexNat v
+            | .argFailed => "arg-failed"
+            | .undefined => "unmodelled")
+      | none => "bad-op"
+    | ["idparse", sx] =>
+      -- idparse <ascii bytes of the string, hex>: ID.SetHexString on an arbitrary string
+      match ofHex? sx with
+      | some bs =>
+        match IdKey.idSetHex (bs.map (fun b => Char.ofNat b.toNat)) with
+        | .ok v => "ok " ++ hexNat v
+        | .argFailed => "arg-failed"
+        | .undefined => "unmodelled"
+      | none => "bad-op"
+    | ["membercount", mn, mx, ratio, avail] =>
+      match dec? mn, dec? mx, dec? ratio, dec? avail with
+      | some a, some b, some c, some d =>
+        if c = 0 then "PANIC" else
+        match Shamir.createGroupMemberCount a b c d with
+        | some v => toString v ++ " " ++ toString (Shamir.isGroupMemberCountLegal a b v)
+        | none => "unmodelled"
+      | _, _, _, _ => "bad-op"
     | "deliver" :: n :: rest =>
       -- deliver <n> <id> <share> <pub> … : a delivery history for one member's groupNodeInfo
       let rec pieces? : List String → Option (List (Shamir.Piece G2.Point))
